@@ -105,7 +105,14 @@ class Case:
         sts = [model.DictObjectStore([self.objs[u][()] for u in s]) for s in (self.stores if stores is None else stores)]
         if len(sts) == 1:
             return sts[0]
-        return model.ObjectProviderMultiplexer(sts)
+        if len(sts) % 2 == 0:
+            return model.ObjectProviderMultiplexer(sts)
+        # constructed without an argument and filled afterwards; a second multiplexer constructed the same way stays empty
+        mux = model.ObjectProviderMultiplexer()
+        for st in sts:
+            mux.providers.append(st)
+        self.bystander = model.ObjectProviderMultiplexer()
+        return mux
 
     def node_json(self, o) -> List[Any]:
         u, p = self.ident[id(o)]
@@ -666,6 +673,14 @@ def check_case(case_json, rng: Optional[random.Random] = None) -> Optional[C.Fai
                 f = judge_chain(case, prov, u, d, ks, ty, dict(where, keys=ks, type=ty))
                 if f:
                     return f
+    by = getattr(case, "bystander", None)
+    if by is not None:
+        for u, d in enumerate(case.descs):
+            try:
+                by.get_identifiable(d[1])
+                return C.Failing("mux:bystander-knows", f"a multiplexer that was given no provider returns identifiable {d[1]!r}", {"case": cj, "uid": u, "path": []})
+            except KeyError:
+                pass
     # (e) the provider is a live object: after an identifiable is taken out of its store, references into it no longer
     #     resolve; after a rebuilt copy is put in, they resolve to the elements of the COPY (never to the old ones)
     stores = getattr(prov, "providers", None) or [prov]
